@@ -277,6 +277,51 @@ Section Cells.
     reflexivity.
   Qed.
 
+  (* RHO = x, MAT = n (LIKE n BUT cards) *)
+  Lemma consumes_rho t v rest :
+    String.prefix "imp" t = false -> contains_sub "fill" t = false -> contains_sub "lat" t = false ->
+    contains_sub "trcl" t = false -> contains_sub "u" t = false -> contains_sub "rho" t = true ->
+    consumes t (v :: rest) 1.
+  Proof.
+    intros H1 H2 H3 H4 H5 H6. split; [exact H1|]. intros k. eexists.
+    unfold kw_step. rewrite H1, H2, H3, H4, H5, H6. cbn [pop1 bind]. reflexivity.
+  Qed.
+
+  Lemma consumes_mat t v rest :
+    String.prefix "imp" t = false -> contains_sub "fill" t = false -> contains_sub "lat" t = false ->
+    contains_sub "trcl" t = false -> contains_sub "u" t = false -> contains_sub "rho" t = false ->
+    contains_sub "mat" t = true ->
+    consumes t (v :: rest) 1.
+  Proof.
+    intros H1 H2 H3 H4 H5 H6 H7. split; [exact H1|]. intros k. eexists.
+    unfold kw_step. rewrite H1, H2, H3, H4, H5, H6, H7. cbn [pop1 bind]. reflexivity.
+  Qed.
+
+  (* LAT = 1 | 2 *)
+  Lemma consumes_lat t v z rest :
+    String.prefix "imp" t = false -> contains_sub "fill" t = false -> contains_sub "lat" t = true ->
+    int_tok v = Some z -> (z = 1 \/ z = 2)%Z ->
+    consumes t (v :: rest) 1.
+  Proof.
+    intros H1 H2 H3 Hv Hz. split; [exact H1|]. intros k. eexists.
+    unfold kw_step. rewrite H1, H2, H3. unfold parse_lat. rewrite Hv. cbn [of_opt bind].
+    replace ((z =? 1)%Z || (z =? 2)%Z) with true
+      by (destruct Hz as [-> | ->]; reflexivity).
+    cbn [bind]. reflexivity.
+  Qed.
+
+  (* FILL = n (a universe number, no transformation) *)
+  Lemma consumes_fill_univ t v x rest :
+    String.prefix "imp" t = false -> contains_sub "fill" t = true ->
+    contains_char ":" v = false -> fl P v = Some x -> take_numeric rest = [] ->
+    consumes t (v :: rest) 1.
+  Proof.
+    intros H1 H2 Hc Hfl Hn. split; [exact H1|]. intros k.
+    unfold kw_step. rewrite H1, H2. unfold parse_fill. rewrite Hc, Hfl. cbn [of_opt bind tl].
+    rewrite Hn. unfold fill_params. cbn [floats_of bind List.length Nat.add].
+    destruct (contains_char "*" t); eexists; reflexivity.
+  Qed.
+
   (* ================= the importance of a cell ================= *)
 
   (* cell-card value (the largest of the IMP keywords) if there is one,
@@ -435,5 +480,20 @@ Section Cells.
     cbn [fst] in Hk. subst k. apply filter_In in Hf. destruct Hf as [Hin Hc]. cbn [snd] in Hc.
     rewrite (Hs key c Hin). unfold converted in Hc. unfold is_zero.
     destruct (c_imp c) as [v|]; [|discriminate]. destruct (seqb Sc v (s0 Sc)); [discriminate|discriminate].
+  Qed.
+
+  (* so the VOLU lines of the file are exactly the cells handed to the conversion *)
+  Theorem written_ids_conv_keys imp_cards cards lats cells skipped :
+    parse_cells Sc P imp_cards cards lats = Ok (cells, skipped) ->
+    written_ids Sc cells skipped = conv_keys Sc cells.
+  Proof.
+    intros H. unfold written_ids.
+    assert (forall key, In key (conv_keys Sc cells) -> negb (existsb (Z.eqb key) skipped) = true) as Hall.
+    { intros key Hin. apply negb_true_iff. apply not_true_is_false. intros He.
+      apply existsb_exists in He. destruct He as (k' & Hk' & Heq). apply Z.eqb_eq in Heq. subst k'.
+      exact (conv_keys_not_skipped _ _ _ _ _ _ H Hin Hk'). }
+    induction (conv_keys Sc cells) as [|k l IH]; [reflexivity|].
+    cbn [filter]. rewrite (Hall k (or_introl eq_refl)). f_equal. apply IH.
+    intros key Hin. apply Hall. right. exact Hin.
   Qed.
 End Cells.
